@@ -1,0 +1,21 @@
+// Copyright (c) HashiCorp, Inc.
+// SPDX-License-Identifier: MPL-2.0
+
+//go:build verif
+
+package tls
+
+import "crypto/tls"
+
+// SimOrderConfigs, if set, may reorder (in place) the client configurations
+// ClientConfigs is about to return. They are built by ranging over a map, so
+// their order is otherwise chosen by the Go runtime; a deterministic simulator
+// sets this to make the order a seeded choice. Any order is one the unhooked
+// code can produce.
+var SimOrderConfigs func(cfgs []*tls.Config)
+
+func simOrderConfigs(cfgs []*tls.Config) {
+	if SimOrderConfigs != nil {
+		SimOrderConfigs(cfgs)
+	}
+}
